@@ -3,11 +3,13 @@ state) and log what every public call returned.  No expectations."""
 from __future__ import annotations
 
 ARGS = {1: ((-1,), {}), 2: ((-2,), {}), 3: ((1,), {}), 4: ((1.0,), {}), 5: ((), {"x": 1, "y": 2}),
-        6: ((), {"y": 2, "x": 1}), 7: ((), {"x": -1}), 8: ((13,), {})}      # 13: the harness classes' __init__ raises
+        6: ((), {"y": 2, "x": 1}), 7: ((), {"x": -1}), 8: ((13,), {}),
+        9: ((), {"x": [1, 2]})}         # an unhashable keyword value: the documented default key function copes      # 13: the harness classes' __init__ raises
 
 
 def parity(args, kwargs):
-    return (args[0] if args else kwargs.get("x", 0)) % 2
+    x = args[0] if args else kwargs.get("x", 0)
+    return (x if isinstance(x, (int, float)) else len(x)) % 2
 
 
 def fresh_classes():
